@@ -167,7 +167,7 @@ def check_members(obj, new, shape, facts):
             raise Violation('member_not_copied', member='c (mutable inside a tuple)', **facts)
 
 
-def roundtrip(shape: int, fstate: int, depth2: bool, lmode: int, v: int, s: str):
+def roundtrip(shape: int, fstate: int, depth2: bool, lmode: int, v: int, s: str, reuse: int = 0):
     """lmode: 0 default loader; 1 global custom loader; 2 custom loader given for this save only (recorded in the
     saved state), nothing given on load; 3 custom loader given on save and on load"""
     assume(len(s) <= 2)
@@ -176,6 +176,8 @@ def roundtrip(shape: int, fstate: int, depth2: bool, lmode: int, v: int, s: str)
     lm = pick(lmode, 4)
     if sh != 2:
         assume(fs == 0 and not depth2)
+    ru = pick(reuse, 3)   # the caller's loader-less load context is used for another state: 0 no, 1 afterwards, 2 before
+    assume(ru == 0 or lm == 2)
     loop = fresh_loop()
     facts = dict(shape=SHAPES[sh].__name__, future=FUT_STATES[fs] if sh == 2 else None, loader_mode=lm)
     obj, exc = build(sh, v, s, fs, depth2, loop)
@@ -212,10 +214,31 @@ def roundtrip(shape: int, fstate: int, depth2: bool, lmode: int, v: int, s: str)
             obj.c[1].pop()
         del CustomLoader.CALLS[:]
         load_ctx = LoadSaveContext(loader=custom, loop=loop) if lm == 3 else LoadSaveContext(loop=loop)
+
+        def load_other():
+            # a state saved with the global default loader, loaded through the same (loader-less) context object
+            other = Base()
+            other.a = v
+            st = other.save()
+            n0 = len(CustomLoader.CALLS)
+            try:
+                got = Savable.load(st, load_ctx)
+            except Exception as e:  # noqa: BLE001
+                raise Violation('reused_context_load_raised', err=type(e).__name__, order=ru, **facts)
+            if type(got) is not Base or got.a != v:
+                raise Violation('reused_context_wrong_object', order=ru, **facts)
+            if len(CustomLoader.CALLS) != n0:
+                raise Violation('loader_of_another_state_consulted', order=ru, **facts)
+            NOTES.witness('load_context_reused')
+
+        if ru == 2:
+            load_other()
         try:
             new = Savable.load(state, load_ctx)
         except Exception as e:  # noqa: BLE001
-            raise Violation('load_raised', err=type(e).__name__, msg=str(type(e)), **facts)
+            raise Violation('load_raised', err=type(e).__name__, msg=str(type(e)), reuse=ru, **facts)
+        if ru == 1:
+            load_other()
         check_members(obj, new, sh, facts)
         if lm in (1, 2, 3):
             if cname not in CustomLoader.CALLS:
@@ -270,7 +293,7 @@ def shards(tier):
 
 BOUNDS = {t: dict(class_shapes='Base; Mid(Base); Leaf(Mid(Base)) with nested Savable (depth 1 or 2), SavableFuture and bound method; Leaf2(Base) re-declaring a base member; Empty',
                   member_values='symbolic int, symbolic str (len <= 2), list with nested dict/list of them, tuple',
-                  futures=FUT_STATES, loaders='default / global custom / per-save custom with alias identifiers (loader named in the saved state) / custom on save and load',
+                  futures=FUT_STATES, loaders='default / global custom / per-save custom with alias identifiers (loader named in the saved state) / custom on save and load; the loader-less load context reused for a default-saved state before / after',
                   unknown_identifiers=4) for t in ('quick', 'thorough')}
 OUTSIDE = ['inheritance deeper than 3', 'members that are methods of other objects (rejected by save_members by design)', 'pickle/YAML transport of the saved state (C07)',
            'custom loaders without a no-argument constructor']
@@ -278,6 +301,6 @@ RULE = 'paths over (class shape, future state, nesting depth, loader mode, membe
 SOLVER_ROLE = 'data role for member values (equality after deepcopy decided symbolically); selector role for shape/loader mode/future state'
 EXPLANATION = 'Savable.save / Savable.load round trip incl. loader resolution, rebinding of methods, nested savables, futures, copy semantics and the fixed point save(load(s)) == s'
 ASSUMPTIONS = ['the custom loader is a DefaultObjectLoader subclass that maps the test classes to alias identifiers and falls back to the default resolution']
-REQUIRED_WITNESSES = ['custom_loader_resolved_class', 'future_pending', 'future_result', 'future_exception', 'future_cancelled', 'nested_depth2', 'unknown_class_valueerror']
+REQUIRED_WITNESSES = ['load_context_reused', 'custom_loader_resolved_class', 'future_pending', 'future_result', 'future_exception', 'future_cancelled', 'nested_depth2', 'unknown_class_valueerror']
 LEVEL_TEXT = ('bounded exhaustive symbolic exploration over a family of Savable class shapes x future states x loader modes with symbolic member values: members restored, copied, rebound, '
               'recreated; right loader consulted; save(load(s)) == s; unknown class -> ValueError')
